@@ -1585,6 +1585,51 @@ func (k *cbpCtx) mustStop(what string, from *ssa.BasicBlock, allowed func(op ssa
 	}
 }
 
+// handsStepErrorOn: e, the error of step call `call`, is used for nothing but being returned, and every return
+// of k.fn that can follow the call returns it unchanged (`return m.diffOne(ctx, dc)`), and neither a callback nor
+// another step runs in between.
+func (k *cbpCtx) handsStepErrorOn(call *ssa.Call, e ssa.Value) bool {
+	if e.Referrers() == nil || k.errIdx() < 0 {
+		return false
+	}
+	for _, r := range *e.Referrers() {
+		switch x := r.(type) {
+		case *ssa.DebugRef:
+		case *ssa.Return:
+			if x.Results[k.errIdx()] != e {
+				return false
+			}
+		default:
+			return false
+		}
+	}
+	n := 0
+	for _, r := range ir.Returns(k.fn) {
+		if !ir.InstrReaches(call, r) {
+			continue
+		}
+		if r.Results[k.errIdx()] != e {
+			return false
+		}
+		n++
+	}
+	if n == 0 {
+		return false
+	}
+	for _, ci := range CallsOf(k.fn) {
+		if ci == ssa.CallInstruction(call) || !ir.InstrReaches(call, ci) {
+			continue
+		}
+		if k.S.callbackKind(ci) != "" || k.callbackHelper(ci) != "" {
+			return false
+		}
+		if _, isStep := k.stepCallee(ci); isStep {
+			return false
+		}
+	}
+	return true
+}
+
 // stepCalls checks the handling of the diff step's result in k.fn.
 // endOK says which error operand ends the diff correctly.
 func (k *cbpCtx) stepCalls(endOK func(op, e ssa.Value) bool, endDesc string, needTest bool, depth int) int {
@@ -1627,6 +1672,12 @@ func (k *cbpCtx) stepCalls(endOK func(op, e ssa.Value) bool, endDesc string, nee
 			k.mustStop("end of diff (ErrNoMoreDiffs)", t.eq, func(op ssa.Value) bool { return endOK(op, e) }, endDesc, call)
 		}
 		nifs := nilIfsOf(k.fn, e)
+		if len(nifs) == 0 && depth > 0 && len(tests) == 0 && k.handsStepErrorOn(call, e) {
+			// a helper that only runs the step (after preparing the state) and returns its error as it is:
+			// nil, ErrNoMoreDiffs and failures all reach the driver, which is held to the tests
+			c.OK(pos, "error of the diff step in "+k.fn.Name(), "returned unchanged on every path after the step; tested by the caller", false)
+			continue
+		}
 		if len(nifs) == 0 {
 			c.Violation(k.fn, pos, "error of the diff step not tested",
 				fmt.Sprintf("%s never tests the step's error against nil: a failed load is not reported", k.fn.Name()))
@@ -1650,6 +1701,16 @@ func (k *cbpCtx) stepCalls(endOK func(op, e ssa.Value) bool, endDesc string, nee
 // callback invocation — or of a call of a helper that invokes the callback
 // and hands both results on to its caller (followed up to two levels).
 func cbpCheckCall(kk *cbpCtx, ci ssa.CallInstruction, name string, depth int) {
+	cbpCheckCallX(kk, ci, name, depth, false, false)
+}
+
+// cbpCheckCallX: stopVal is the value of the call's boolean result that asks
+// the diff to stop (false for the callback's keepGoing and for a helper that
+// hands keepGoing on; true for a helper answering `stop` = !keepGoing); tied
+// says that the callee answers stopVal whenever it returns a non-nil error
+// (every failing return of the helper has that constant), so that a caller
+// which only branches on the boolean has the error in hand on the stop edge.
+func cbpCheckCallX(kk *cbpCtx, ci ssa.CallInstruction, name string, depth int, stopVal, tied bool) {
 	c, P, fn := kk.c, kk.c.P, kk.fn
 	pos := P.InstrPos(ci)
 	call, isCall := ci.(*ssa.Call)
@@ -1658,31 +1719,61 @@ func cbpCheckCall(kk *cbpCtx, ci ssa.CallInstruction, name string, depth int) {
 		return
 	}
 	keep, e := cbResults(call)
+	var ifs []struct {
+		If      *ssa.If
+		OnTrue  *ssa.BasicBlock
+		OnFalse *ssa.BasicBlock
+	}
+	other := false
+	if keep != nil {
+		ifs, other = sdCondIfs(keep)
+	}
+	stopEdge := func(i struct {
+		If      *ssa.If
+		OnTrue  *ssa.BasicBlock
+		OnFalse *ssa.BasicBlock
+	}) *ssa.BasicBlock {
+		if stopVal {
+			return i.OnTrue
+		}
+		return i.OnFalse
+	}
 	if e == nil {
 		c.Violation(fn, pos, "error of the "+name+" ignored", "the callback's error result is dropped: the diff goes on (or ends successfully) although the callback failed")
-	} else if nifs := nilIfsOf(fn, e); len(nifs) == 0 {
-		c.Undecided(fn, pos, "error of the "+name+" never tested", "the callback's error is not compared with nil; the rule cannot find the failing path")
-	} else {
+	} else if nifs := nilIfsOf(fn, e); len(nifs) > 0 {
 		for _, ni := range nifs {
 			kk.mustFail("error of the "+name, e, ni.nonNil, nil, ci)
 		}
+	} else if tied && !other && len(ifs) > 0 {
+		// never compared with nil, but the helper asks to stop whenever it fails: the error can be non-nil only on
+		// the stop edge, and there every return must carry it
+		for _, i := range ifs {
+			kk.mustFail("error of the "+name, e, stopEdge(i), nil, ci)
+		}
+	} else {
+		c.Undecided(fn, pos, "error of the "+name+" never tested", "the callback's error is not compared with nil; the rule cannot find the failing path")
 	}
 	if keep == nil {
 		c.Violation(fn, pos, "keepGoing of the "+name+" ignored", "the callback's keepGoing result is dropped: the diff cannot be stopped early")
 		return
 	}
-	ifs, other := sdCondIfs(keep)
 	if other || len(ifs) == 0 {
 		// handed on to the caller?
-		if depth < 2 && len(ifs) == 0 && sdOnlyReturned(keep) {
+		if depth < 2 && len(ifs) == 0 {
+			upStop, upTied, handed := stopVal, false, sdOnlyReturned(keep)
+			if onlyCalledStatically(c, fn) {
+				if s, t, ok := cbpHandsOn(fn, call, keep, stopVal); ok {
+					upStop, upTied, handed = s, t, true
+				}
+			}
 			n := 0
 			for _, cs := range P.Callers[fn] {
-				if !kk.S.slice[cs.Parent()] {
+				if !handed || !kk.S.slice[cs.Parent()] {
 					continue
 				}
 				n++
 				kc := &cbpCtx{c: c, S: kk.S, fn: cs.Parent(), step: kk.step}
-				cbpCheckCall(kc, cs, name+" (through "+fn.Name()+")", depth+1)
+				cbpCheckCallX(kc, cs, name+" (through "+fn.Name()+")", depth+1, upStop, upTied)
 			}
 			if n > 0 {
 				c.OK(pos, "keepGoing of the "+name+" in "+fn.Name(), fmt.Sprintf("returned to the caller; checked at its %d call site(s)", n), false)
@@ -1696,13 +1787,100 @@ func cbpCheckCall(kk *cbpCtx, ci ssa.CallInstruction, name string, depth int) {
 		// a callback may return (false, err): `return nil` on the
 		// keepGoing==false edge is right only where err is known nil
 		errKnownNil := e == nil || nilFactOn(i.If.Block(), e, true)
-		kk.mustStop("keepGoing==false of the "+name, i.OnFalse, func(op ssa.Value) bool {
+		kk.mustStop("keepGoing==false of the "+name, stopEdge(i), func(op ssa.Value) bool {
 			if e != nil && sameValue(op, e) {
 				return true
 			}
 			return ir.IsNilConst(op) && errKnownNil
 		}, "nil (with the callback's error known to be nil) or that error", ci)
 	}
+}
+
+// cbpHandsOn: helper fn hands the stop request of `call` (its boolean result
+// keep, which asks to stop when it equals stopVal) on to its own caller in its
+// single boolean result, as it is or negated (`return !keepGoing, nil`): keep
+// is used for nothing else, and every return that can follow the call answers
+// keep in that form or the constant that asks to stop. upStop is the value of
+// fn's boolean result that asks to stop; upTied: every return of fn whose error
+// is not the nil constant answers that constant — fn never fails without asking
+// to stop. Functions with defers (which could change the results) do not qualify.
+func cbpHandsOn(fn *ssa.Function, call *ssa.Call, keep ssa.Value, stopVal bool) (upStop, upTied, ok bool) {
+	res := fn.Signature.Results()
+	ei, bi := ir.ErrorResultIndex(fn.Signature), -1
+	for i := 0; i < res.Len(); i++ {
+		if sdIsBool(res.At(i).Type()) {
+			if bi >= 0 {
+				return false, false, false
+			}
+			bi = i
+		}
+	}
+	if bi < 0 || ei < 0 || keep.Referrers() == nil {
+		return false, false, false
+	}
+	for _, b := range fn.Blocks {
+		for _, ins := range b.Instrs {
+			switch ins.(type) {
+			case *ssa.Defer, *ssa.RunDefers:
+				return false, false, false
+			}
+		}
+	}
+	// the forms in which keep reaches the returns
+	forms := map[ssa.Value]bool{} // value -> negated
+	nReturned, negSeen, posSeen := 0, false, false
+	var walk func(v ssa.Value, neg bool, d int) bool
+	walk = func(v ssa.Value, neg bool, d int) bool {
+		if d > 2 || v.Referrers() == nil {
+			return false
+		}
+		forms[v] = neg
+		for _, r := range *v.Referrers() {
+			switch x := r.(type) {
+			case *ssa.DebugRef:
+			case *ssa.Return:
+				for i, op := range x.Results {
+					if op == v && i != bi {
+						return false
+					}
+				}
+				nReturned++
+				if neg {
+					negSeen = true
+				} else {
+					posSeen = true
+				}
+			case *ssa.UnOp:
+				if x.Op != token.NOT || !walk(x, !neg, d+1) {
+					return false
+				}
+			default:
+				return false
+			}
+		}
+		return true
+	}
+	if !walk(keep, false, 0) || nReturned == 0 || negSeen == posSeen {
+		return false, false, false
+	}
+	upStop = stopVal != negSeen
+	upTied = true
+	for _, r := range ir.Returns(fn) {
+		if bi >= len(r.Results) || ei >= len(r.Results) {
+			return false, false, false
+		}
+		bop := ir.ForwardLoad(r.Results[bi])
+		k, isK := ir.ConstBool(bop)
+		if ir.InstrReaches(call, r) {
+			if _, isForm := forms[bop]; !isForm && !(isK && k == upStop) {
+				return false, false, false // keepGoing is not what decides here
+			}
+		}
+		if !ir.IsNilConst(ir.ForwardLoad(r.Results[ei])) && !(isK && k == upStop) {
+			upTied = false
+		}
+	}
+	return upStop, upTied, true
 }
 
 // sdOnlyReturned: v is used only as a result operand of return instructions
@@ -4148,6 +4326,55 @@ func sdFuncReadsParamField(fn *ssa.Function, idx int, name string) bool {
 	return false
 }
 
+// sdCarriesNodeKey: a is a Key element of node p, or an item built in place from one: (the address of, or a copy
+// of) a composite literal of the function into which a Key element of p is stored, directly or through a nested
+// literal (`&iterItem{yield: entry{node.Key[i], node.Value[i]}}` — the entry-pushing helper written out at its call
+// site).
+func sdCarriesNodeKey(a, p ssa.Value, depth int) bool {
+	if sdPathThroughNodeField(a, "Key") && sdAccessRoot(a) == p {
+		return true
+	}
+	if depth >= 3 {
+		return false
+	}
+	var lit *ssa.Alloc
+	switch x := ir.Strip(a).(type) {
+	case *ssa.Alloc:
+		lit = x
+	case *ssa.UnOp:
+		if x.Op == token.MUL {
+			lit, _ = x.X.(*ssa.Alloc)
+		}
+	}
+	if lit == nil {
+		return false
+	}
+	var stored func(addr ssa.Value, d int) bool
+	stored = func(addr ssa.Value, d int) bool {
+		if d > 3 || addr.Referrers() == nil {
+			return false
+		}
+		for _, r := range *addr.Referrers() {
+			switch x := r.(type) {
+			case *ssa.Store:
+				if x.Addr == addr && sdCarriesNodeKey(x.Val, p, depth+1) {
+					return true
+				}
+			case *ssa.FieldAddr:
+				if x.X == addr && stored(x, d+1) {
+					return true
+				}
+			case *ssa.IndexAddr:
+				if x.X == addr && stored(x, d+1) {
+					return true
+				}
+			}
+		}
+		return false
+	}
+	return stored(lit, 0)
+}
+
 // wholeExpander: fn pushes the whole of its node parameter idx: in a loop it
 // pushes the node's links (Link[i], i not constant) and its entries (a call
 // that receives the node, or a Key element of it, per iteration) — the shape
@@ -4171,7 +4398,7 @@ func (S *sidesInfo) wholeExpander(fn *ssa.Function, idx int, depth int) bool {
 			if ir.ResolveCell(ir.Strip(a)) == p && callee != fn && sdFuncReadsParamField(callee, ai, "Key") {
 				entries = true
 			}
-			if sdPathThroughNodeField(a, "Key") && sdAccessRoot(a) == p {
+			if sdCarriesNodeKey(a, p, 0) {
 				entries = true
 			}
 		}
@@ -5029,7 +5256,7 @@ func expanderUnconditional(c *Ctx, S *sidesInfo) {
 					if ir.ResolveCell(ir.Strip(a)) == ssa.Value(p) && callee != fn && sdFuncReadsParamField(callee, ai, "Key") {
 						isE = true
 					}
-					if sdPathThroughNodeField(a, "Key") && sdAccessRoot(a) == ssa.Value(p) {
+					if sdCarriesNodeKey(a, ssa.Value(p), 0) {
 						isE = true
 					}
 					if isL || isE {
